@@ -12,7 +12,9 @@ import (
 	"path/filepath"
 	"sort"
 	"strings"
+	"syscall"
 	"testing"
+	"time"
 
 	"github.com/restic/restic/internal/global"
 	kit "github.com/restic/restic/internal/verifkit"
@@ -157,6 +159,14 @@ func vScan(t testing.TB, dir string) map[string][2]string {
 		switch {
 		case fi.IsDir():
 			res[rel] = [2]string{"dir", ""}
+		case fi.Mode()&os.ModeNamedPipe != 0:
+			res[rel] = [2]string{"fifo", ""}
+		case fi.Mode()&os.ModeSocket != 0:
+			res[rel] = [2]string{"socket", ""}
+		case fi.Mode()&os.ModeCharDevice != 0:
+			res[rel] = [2]string{"chardev", ""}
+		case fi.Mode()&os.ModeDevice != 0:
+			res[rel] = [2]string{"dev", ""}
 		case fi.Mode()&os.ModeSymlink != 0:
 			tg, _ := os.Readlink(p)
 			res[rel] = [2]string{"symlink", tg}
@@ -315,7 +325,7 @@ type vC20Ent struct {
 }
 
 func TestVerif_C20(t *testing.T) {
-	res := kit.NewResult("one case = one real `restic restore` of a generated snapshot tree (depth <= 3 over names {a,b,ab,A,Ab}: files, empty and nested directories, symlinks) with a pattern set (include or exclude; 1-3 patterns from a pool of 40 globs incl. '**', absolute/relative, negations; case-insensitive patterns) into a target with generated pre-existing entries, with and without --delete; distinct by (tree, pattern set, delete, pre-existing entries); non-trivial when the pattern set selects some but not all entries of the tree")
+	res := kit.NewResult("one case = one real `restic restore` of a generated snapshot tree (depth <= 3 over names {a,b,ab,A,Ab}: files, empty and nested directories, symlinks; hand-built trees additionally with sockets, fifos and device nodes at every depth) with a pattern set (include or exclude; 1-3 patterns from a pool of 40 globs incl. '**', absolute/relative, negations; case-insensitive patterns) into a target with generated pre-existing entries, with and without --delete; distinct by (tree, pattern set, delete, pre-existing entries); non-trivial when the pattern set selects some but not all entries of the tree")
 	recs := kit.NewNDJSON("recs.ndjson")
 	defer recs.Close()
 	rnd := kit.Rand(20)
@@ -339,14 +349,82 @@ func TestVerif_C20(t *testing.T) {
 		trees = append(trees, tree{en, vBackupTree(t, e, en, i)})
 	}
 	n := 0
+	runOne := func(ti int, id string, snapEnts []vC20Ent, snapContent map[string][2]string, files int, sel vSel, del bool, pre []vEntry) {
+		n++
+		tgt := filepath.Join(e.base, fmt.Sprintf("tgt%d", n))
+		vMaterialise(t, tgt, pre, "pre")
+		preContent := vScan(t, tgt)
+
+		opts := RestoreOptions{Target: tgt, Delete: del}
+		p, ip := sel.raws()
+		if sel.Mode == "include" {
+			opts.Includes, opts.InsensitiveIncludes = p, ip
+		} else if sel.Mode == "exclude" {
+			opts.Excludes, opts.InsensitiveExcludes = p, ip
+		}
+		err := e.restore(opts, id)
+		after := vScan(t, tgt)
+		_ = os.RemoveAll(tgt)
+
+		rec := map[string]any{"op": "restore", "sel": sel, "delete": del, "snap": snapEnts, "err": err != nil, "tree": ti}
+		if err != nil {
+			rec["errmsg"] = err.Error()
+		}
+		preEnts := []vC20Ent{}
+		for _, en := range pre {
+			preEnts = append(preEnts, vC20Ent{P: vSelPathOf(en.Path), T: en.Type})
+		}
+		rec["pre"] = preEnts
+		afterEnts := []vC20Ent{}
+		var keys []string
+		for k := range after {
+			keys = append(keys, k)
+		}
+		sort.Strings(keys)
+		for _, k := range keys {
+			a := after[k]
+			c := "other"
+			switch {
+			case a[0] == "dir":
+				c = "dir"
+			case snapContent[k] == a:
+				c = "snap"
+			case preContent[k] == a:
+				c = "pre"
+			}
+			afterEnts = append(afterEnts, vC20Ent{P: vSelPathOf(k), T: a[0], C: c})
+		}
+		rec["after"] = afterEnts
+		recs.Write(rec)
+		restored := 0
+		for _, a := range afterEnts {
+			if a.C == "snap" {
+				restored++
+			}
+		}
+		res.Case(fmt.Sprintf("%d|%s|%v|%v", ti, sel, del, pre), restored > 0 && restored < files)
+		res.Count("restores_"+sel.Mode, 1)
+		if del {
+			res.Count("restores_with_delete", 1)
+			res.Count("preexisting_entries_removed", len(preContent)-vCountKept(preContent, after))
+		}
+		if n == 5 {
+			res.Sample(rec)
+		}
+	}
 	for ti, tr := range trees {
 		snapContent := vScan(t, filepath.Join(e.base, fmt.Sprintf("src%d", ti)))
 		var snapEnts []vC20Ent
 		for _, en := range tr.entries {
 			snapEnts = append(snapEnts, vC20Ent{P: vSelPathOf(en.Path), T: en.Type})
 		}
+		files := 0
+		for _, en := range tr.entries {
+			if en.Type != "dir" {
+				files++
+			}
+		}
 		for k := 0; k < perTree; k++ {
-			n++
 			mode := []string{"include", "exclude"}[k%2]
 			var sel vSel
 			switch {
@@ -363,75 +441,150 @@ func TestVerif_C20(t *testing.T) {
 			if k%4 != 1 {
 				pre = vDrawPre(rnd, tr.entries, names)
 			}
-			tgt := filepath.Join(e.base, fmt.Sprintf("tgt%d", n))
-			vMaterialise(t, tgt, pre, "pre")
-			preContent := vScan(t, tgt)
+			runOne(ti, tr.id, snapEnts, snapContent, files, sel, del, pre)
+		}
+	}
 
-			opts := RestoreOptions{Target: tgt, Delete: del}
-			p, ip := sel.raws()
-			if sel.Mode == "include" {
-				opts.Includes, opts.InsensitiveIncludes = p, ip
-			} else if sel.Mode == "exclude" {
-				opts.Excludes, opts.InsensitiveExcludes = p, ip
+	// ---- hand-built snapshots that also contain node types restore does not create (sockets, as old
+	// snapshots have them) or creates with mknod (fifo, devices), at every depth, with pre-existing
+	// target entries of the same name (file / symlink / directory), --delete on and off
+	special := []string{"socket", "socket", "fifo"}
+	if vCanMknod(t, e.base) {
+		special = append(special, "chardev", "dev")
+	} else {
+		res.Count("mknod_not_permitted_devices_skipped", 1)
+	}
+	nSpecial := kit.Pick(6, 30)
+	perSpecial := kit.Pick(20, 60)
+	for si := 0; si < nSpecial; si++ {
+		var entries []vEntry
+		for len(entries) < 4 {
+			entries = vGenTree(rnd, names, 3)
+		}
+		// turn non-directories into special nodes and add some more below the directories
+		var nodes []vBNode
+		have := map[string]bool{}
+		for _, en := range entries {
+			have[en.Path] = true
+		}
+		nSock := 0
+		for i, en := range entries {
+			if en.Type != "dir" && (rnd.Intn(3) == 0 || (nSock == 0 && i >= len(entries)/2)) {
+				en.Type = special[rnd.Intn(len(special))]
+				if en.Type == "socket" {
+					nSock++
+				}
 			}
-			err := e.restore(opts, tr.id)
-			after := vScan(t, tgt)
-			_ = os.RemoveAll(tgt)
-
-			rec := map[string]any{"op": "restore", "sel": sel, "delete": del, "snap": snapEnts, "err": err != nil, "tree": ti}
-			if err != nil {
-				rec["errmsg"] = err.Error()
+			nodes = append(nodes, vBNode{Path: en.Path, Type: en.Type, Key: en.Path})
+		}
+		for _, en := range entries {
+			if en.Type == "dir" && strings.Count(en.Path, "/") < 2 && rnd.Intn(2) == 0 {
+				p := en.Path + "/" + names[rnd.Intn(len(names))]
+				if !have[p] {
+					have[p] = true
+					nodes = append(nodes, vBNode{Path: p, Type: special[rnd.Intn(len(special))], Key: p})
+				}
 			}
-			preEnts := []vC20Ent{}
+		}
+		if p := names[rnd.Intn(len(names))]; !have[p] {
+			have[p] = true
+			nodes = append(nodes, vBNode{Path: p, Type: "socket", Key: p})
+		}
+		sort.Slice(nodes, func(i, j int) bool { return nodes[i].Path < nodes[j].Path })
+		id := vBuildSnapshot(t, e, nodes, vBTime.Add(time.Duration(si)*time.Minute))
+		snapContent := map[string][2]string{}
+		var snapEnts []vC20Ent
+		var plain, specials []vEntry
+		files := 0
+		for _, nd := range nodes {
+			snapEnts = append(snapEnts, vC20Ent{P: vSelPathOf(nd.Path), T: nd.Type})
+			c := ""
+			switch nd.Type {
+			case "file":
+				c = string(vBContent(nd))
+			case "symlink":
+				c = "target-" + nd.Key
+			}
+			snapContent[nd.Path] = [2]string{nd.Type, c}
+			if nd.Type != "dir" {
+				files++
+			}
+			if nd.Type == "file" || nd.Type == "dir" || nd.Type == "symlink" {
+				plain = append(plain, vEntry{nd.Path, nd.Type})
+			} else {
+				specials = append(specials, vEntry{nd.Path, nd.Type})
+			}
+		}
+		res.Count("snapshots_with_special_nodes", 1)
+		for k := 0; k < perSpecial; k++ {
+			mode := []string{"include", "exclude"}[k%2]
+			var sel vSel
+			switch {
+			case k%5 == 0:
+				sel = vSel{Mode: "none", Pats: []vSelPat{}, IPats: []vSelPat{}}
+			case k%5 == 1:
+				sp := specials[rnd.Intn(len(specials))]
+				sel = vSel{Mode: mode, Pats: vSelPats("/" + sp.Path), IPats: []vSelPat{}} // exactly one special node
+			case k%5 == 2:
+				sel = vSel{Mode: mode, Pats: vSelPats(vSelPool[rnd.Intn(len(vSelPool))]), IPats: []vSelPat{}}
+			default:
+				sel = vDrawSel(rnd, mode)
+			}
+			del := k%4 != 3
+			// pre-existing entries: the usual ones for the plain part of the tree, plus entries with the names of
+			// the special nodes (file / symlink / empty directory; below a socket also a directory with content)
+			// (vDrawPre sees the special nodes as occupied names, so it puts nothing at or below them)
+			pre := vDrawPre(rnd, append(append([]vEntry{}, plain...), specials...), names)
+			pm := map[string]string{}
 			for _, en := range pre {
-				preEnts = append(preEnts, vC20Ent{P: vSelPathOf(en.Path), T: en.Type})
-			}
-			rec["pre"] = preEnts
-			afterEnts := []vC20Ent{}
-			var keys []string
-			for k := range after {
-				keys = append(keys, k)
-			}
-			sort.Strings(keys)
-			for _, k := range keys {
-				a := after[k]
-				c := "other"
-				switch {
-				case a[0] == "dir":
-					c = "dir"
-				case snapContent[k] == a:
-					c = "snap"
-				case preContent[k] == a:
-					c = "pre"
-				}
-				afterEnts = append(afterEnts, vC20Ent{P: vSelPathOf(k), T: a[0], C: c})
-			}
-			rec["after"] = afterEnts
-			recs.Write(rec)
-			restored := 0
-			for _, a := range afterEnts {
-				if a.C == "snap" {
-					restored++
+				if en.Type == "file" || en.Type == "dir" || en.Type == "symlink" {
+					pm[en.Path] = en.Type
 				}
 			}
-			files := 0
-			for _, en := range tr.entries {
-				if en.Type != "dir" {
-					files++
+			for _, sp := range specials {
+				if rnd.Intn(4) == 0 {
+					continue
 				}
+				if _, ok := pm[sp.Path]; ok {
+					continue
+				}
+				ok := true
+				parts := strings.Split(sp.Path, "/")
+				for i := 1; i < len(parts); i++ {
+					if t, in := pm[strings.Join(parts[:i], "/")]; in && t != "dir" {
+						ok = false
+					}
+				}
+				if !ok {
+					continue
+				}
+				for i := 1; i < len(parts); i++ {
+					pm[strings.Join(parts[:i], "/")] = "dir"
+				}
+				pt := []string{"file", "file", "symlink", "dir"}[rnd.Intn(4)]
+				pm[sp.Path] = pt
+				if pt == "dir" && sp.Type == "socket" && len(parts) < 3 && rnd.Intn(2) == 0 {
+					pm[sp.Path+"/"+names[rnd.Intn(len(names))]] = "file"
+				}
+				res.Count("preexisting_entry_named_like_special_node", 1)
 			}
-			res.Case(fmt.Sprintf("%d|%s|%v|%v", ti, sel, del, pre), restored > 0 && restored < files)
-			res.Count("restores_"+sel.Mode, 1)
-			if del {
-				res.Count("restores_with_delete", 1)
-				res.Count("preexisting_entries_removed", len(preContent)-vCountKept(preContent, after))
+			pre = pre[:0]
+			for p, t := range pm {
+				pre = append(pre, vEntry{p, t})
 			}
-			if n == 5 {
-				res.Sample(rec)
-			}
+			sort.Slice(pre, func(i, j int) bool { return pre[i].Path < pre[j].Path })
+			runOne(1000+si, id, snapEnts, snapContent, files, sel, del, pre)
 		}
 	}
 	res.Save("")
+}
+
+// vCanMknod reports whether device nodes can be created here (root without seccomp filter).
+func vCanMknod(t testing.TB, dir string) bool {
+	p := filepath.Join(dir, "mknod-probe")
+	err := syscall.Mknod(p, syscall.S_IFCHR|0o600, 1<<8|3)
+	_ = os.Remove(p)
+	return err == nil
 }
 
 func vCountKept(pre, after map[string][2]string) int {
